@@ -797,8 +797,8 @@ def search_around(ck, hbin, sp, tr, r, n=120):
     return None
 
 
-def judge_batch(ck, hbin, blocks, tag, state):
-    script, impl, model, rc, err = run_batch(ck, hbin, blocks)
+def judge_batch(ck, hbin, blocks, tag, state, pre=None):
+    script, impl, model, rc, err = pre if pre is not None else run_batch(ck, hbin, blocks)
     ck.traces_validated += 1
     ck.count("scripts:" + tag)
     ck.count("ops", len(script) - 1)
@@ -989,29 +989,24 @@ def run(ck):
         return run_batch(ck, hbin, blocks)
     with ThreadPoolExecutor(max_workers=8) as ex:
         results = list(ex.map(work, jobs))
-    cache = {id(j[0]): res for j, res in zip(jobs, results)}
-    global run_batch
-    orig = run_batch
-
-    def cached(ck_, hbin_, blocks):
-        if id(blocks) in cache:
-            return cache.pop(id(blocks))
-        return orig(ck_, hbin_, blocks)
-    run_batch = cached
-    try:
-        for blocks, tag in jobs:
-            if state["bad"] >= 6:
-                break
-            judge_batch(ck, hbin, blocks, tag, state)
-    finally:
-        run_batch = orig
+    for (blocks, tag), res in zip(jobs, results):
+        if state["bad"] >= 6:
+            break
+        judge_batch(ck, hbin, blocks, tag, state, pre=res)
     return 0
 
 
 def replay(ck, data):
     hbin = ck.build_harness("spacedist", ["spacedist.cpp"], link_ompl=True)
     rec = data.get("record") or {}
-    script = data["script"]
+    script = data.get("script")
+    if not script:
+        # a broken obligation (failed lake build / audit / claims coverage): re-check it
+        table, _ = claims_gen.generate(ck, hbin)
+        ok = ck.lean_build(["OmplModel.Props.C06", DRIVER]) and ck.audit()
+        print("obligation: %s" % data.get("obligation"))
+        print("lake build + audit on the current tree: %s" % ("ok" if ok else "FAILED"))
+        return 0 if ok else 1
     impl, rc, err = ck.run_bin(hbin, script)
     model = None
     if "space" in rec:
